@@ -10,7 +10,8 @@ import subprocess
 import time
 
 VERIF = os.path.dirname(os.path.dirname(os.path.abspath(__file__)))
-TARGET = os.path.join(VERIF, '.cache', 'native-target')
+# E57_TARGET_SUFFIX: separate build directories for matrix runs that evaluate several trees side by side (registered checks run one at a time)
+TARGET = os.path.join(VERIF, '.cache', 'native-target' + os.environ.get('E57_TARGET_SUFFIX', ''))
 
 
 def parse_group(name):
